@@ -210,7 +210,7 @@ func (a *T0x0200AdditionDetails) decode(id uint8, content []byte) AdditionConten
 		tmp.OverSpeedAlarm = AdditionOverSpeedAlarm{
 			LocationType: content[0],
 		}
-		if content[0] != 0 {
+		if content[0] != 0 && len(content) >= 4 {
 			tmp.OverSpeedAlarm.AreaID = binary.BigEndian.Uint32(content)
 		}
 	case 0x12:
